@@ -8,7 +8,7 @@ import subprocess
 import time
 
 from . import api_scen
-from .common import (BIN, ToolError, build_harness, finish, load_findings, log, save_replay, tlc_mc,
+from .common import (run_harness, BIN, ToolError, build_harness, finish, load_findings, log, save_replay, tlc_mc,
                      validate_sharded, workdir, write_evidence, WORK)
 
 
@@ -25,15 +25,12 @@ def run(pid, tier, seed, replay=None):
     else:
         scs = [json.load(open(replay))["scenario"]]
     wd = workdir("builder_" + pid)
-    for d in (os.path.join(WORK, "vr"), os.path.join(WORK, "ap")):
-        os.makedirs(d, exist_ok=True)
     spath = os.path.join(wd, "scen.ndjson")
     with open(spath, "w") as f:
         for s in scs:
             f.write(json.dumps(s) + "\n")
     tpath = os.path.join(wd, "trace.ndjson")
-    r = subprocess.run([os.path.join(BIN, "api_replay"), spath, tpath], stdin=subprocess.DEVNULL,
-                       stdout=subprocess.PIPE, stderr=subprocess.PIPE, text=True, timeout=2400)
+    r = run_harness([os.path.join(BIN, "api_replay"), spath, tpath], 2400)
     if r.returncode != 0:
         log(r.stderr[-3000:])
         raise ToolError("api_replay failed with status %d" % r.returncode)
